@@ -6,6 +6,7 @@
 #include <string.h>
 #include <vector>
 #include <unistd.h>
+#include <time.h>
 #include "vp.h"
 static std::vector<unsigned long long> g_in; static std::vector<int> g_par; static size_t g_pos = 0; static bool g_loaded = false;
 static FILE* g_notes = 0;
@@ -37,6 +38,23 @@ int vp_param(int k) { load(); return k < (int)g_par.size() ? g_par[k] : 0; }
 int vp_concretize(int x) { return x; }
 int vp_symbolic_run(void) { return 0; }
 void vp_sched_budget(int) {}
+// guarded schedule hooks of the library (-DASL_VERIF): VP_DELAY="name=milliseconds,..." holds a thread at a named point
+void asl_verif_sched_point(const char* name)
+{
+	const char* d = getenv("VP_DELAY");
+	if (!d) return;
+	size_t n = strlen(name);
+	for (const char* p = d; p && *p; ) {
+		if (!strncmp(p, name, n) && p[n] == '=') {
+			// busy wait: sleeping would be a cancellation point, which the code being held does not have
+			struct timespec t0, t; clock_gettime(CLOCK_MONOTONIC, &t0);
+			long ms = atoi(p + n + 1);
+			do clock_gettime(CLOCK_MONOTONIC, &t); while ((t.tv_sec - t0.tv_sec) * 1000 + (t.tv_nsec - t0.tv_nsec) / 1000000 < ms);
+			return;
+		}
+		p = strchr(p, ','); if (p) p++;
+	}
+}
 }
 #include <dlfcn.h>
 int main(int argc, char** argv) {
